@@ -29,7 +29,7 @@ impl Property for C10 {
             real: &["src/entry.rs (static vs dynamic entries, Handle::get)", "src/asset.rs (load_and_record, HOT_RELOADED forwarding incl. Arc<T>)", "src/anycache.rs (get_or_insert / add_any)", "src/cache.rs (constructors, clear)", "src/hot_reloading/{mod,paths,dependencies}.rs (what the reloader is allowed to rewrite)"],
             stub: &["Source: in-memory; modes: supports hot-reloading / make_source() == None / configure_hot_reloading fails (the source keeps the EventSender in every mode and sends anyway)", "channels / locks / scheduler (detsim)"],
             assumptions: &["the insertion race between load and get_or_insert on one key is C01's scenario; here histories are sequential per cache, the reloader runs concurrently"],
-            runs: (16_000, 800_000),
+            runs: (100_000, 3_000_000),
         }
     }
     fn generate(&self, g: &mut SplitMix, k: &mut SplitMix, _tier: Tier) -> (Knobs, Value) {
